@@ -23,7 +23,8 @@ import time
 VERIF = os.path.dirname(os.path.dirname(os.path.abspath(__file__)))
 REPO = os.environ.get("VERIF_REPO", "/repo")
 SPEC = os.path.join(VERIF, "spec")
-HARNESS = os.path.join(VERIF, "harness")
+HARNESS = os.environ.get("VERIF_HARNESS", os.path.join(VERIF, "harness"))
+OUT = os.environ.get("VERIF_OUT", VERIF)      # evidence/, replays/, .work/ live here (redirected when a seeded change is evaluated)
 AVH = os.path.join(HARNESS, "target", "release", "avh")
 ANTHEM = os.path.join(HARNESS, "target", "release", "avh-anthem")
 NCPU = os.cpu_count() or 4
@@ -43,7 +44,7 @@ class Ctx:
         self.tier = tier
         self.seed = seed
         self.t0 = time.time()
-        self.work = os.path.join(VERIF, ".work", f"{prop}-{os.getpid()}")
+        self.work = os.path.join(OUT, ".work", f"{prop}-{os.getpid()}")
         shutil.rmtree(self.work, ignore_errors=True)
         os.makedirs(self.work)
         self.tlc_states = 0
@@ -247,8 +248,8 @@ def match_known(prop, violation, known):
 def finish(ctx, level, coverage, violations, assumptions):
     """violations: list of dicts {check, text, detail, case, record, verdict}."""
     known = load_known()
-    os.makedirs(os.path.join(VERIF, "replays"), exist_ok=True)
-    os.makedirs(os.path.join(VERIF, "evidence"), exist_ok=True)
+    os.makedirs(os.path.join(OUT, "replays"), exist_ok=True)
+    os.makedirs(os.path.join(OUT, "evidence"), exist_ok=True)
     unlisted = []
     listed = {}
     for v in violations:
@@ -265,7 +266,7 @@ def finish(ctx, level, coverage, violations, assumptions):
         if h in seen:
             continue
         seen.add(h)
-        path = os.path.join(VERIF, "replays", f"{ctx.prop}-{h}.json")
+        path = os.path.join(OUT, "replays", f"{ctx.prop}-{h}.json")
         with open(path, "w") as f:
             json.dump({"property": ctx.prop, "tier": ctx.tier, "seed": ctx.seed, **v}, f, indent=1)
         print(f"VIOLATION property={ctx.prop} replay={path}")
@@ -281,7 +282,7 @@ def finish(ctx, level, coverage, violations, assumptions):
         "assumptions": assumptions + ctx.notes, "wall_s": round(time.time() - ctx.t0, 1),
         "violations": len(seen),
     }
-    with open(os.path.join(VERIF, "evidence", f"{ctx.prop}.json"), "w") as f:
+    with open(os.path.join(OUT, "evidence", f"{ctx.prop}.json"), "w") as f:
         json.dump(ev, f, indent=1)
     log(f"[{ctx.prop}] tier={ctx.tier} seed={ctx.seed} wall={ev['wall_s']}s violations={len(seen)} known={sorted(listed.keys())}")
     return 1 if seen else 0
